@@ -25,7 +25,9 @@ section
 variable {α : Type} [Add α] [Sub α] [Mul α] [Div α] [Neg α] [OfNat α 0] [OfNat α 1] [NatCast α]
   [LT α] [DecidableLT α] [LE α] [DecidableLE α] [Transc α] [Consts α]
 
-def isZeroS (c : α) : Bool := !(decide (c < 0)) && !(decide (0 < c))
+/-- `c == 0.0` with IEEE semantics on `Float` (`x ≤ x` fails exactly for NaN, so NaN is *not* zero,
+    as in Rust) and plain `c = 0` on an ordered field. -/
+def isZeroS (c : α) : Bool := !(decide (c < 0)) && !(decide (0 < c)) && decide (c ≤ c)
 
 /-- decimal constant `n / 10^k` (correctly rounded on `Float`, exact on a field) -/
 def dec (n k : Nat) : α := (n : α) / ((10 ^ k : Nat) : α)
